@@ -356,6 +356,11 @@ func (v *visitor) FunctionNode(node *ast.FunctionNode) reflect.Type {
 		}
 	}
 	if !v.strict {
+		// Nothing is known about the function, but its arguments are
+		// expressions like any other: give them their types.
+		for _, arg := range node.Arguments {
+			v.visit(arg)
+		}
 		if v.defaultType != nil {
 			return v.defaultType
 		}
@@ -380,6 +385,11 @@ func (v *visitor) MethodNode(node *ast.MethodNode) reflect.Type {
 // checkFunc checks func arguments and returns "return type" of func or method.
 func (v *visitor) checkFunc(fn reflect.Type, method bool, node ast.Node, name string, arguments []ast.Node) reflect.Type {
 	if isInterface(fn) {
+		// Nothing is known about the function, but its arguments are
+		// expressions like any other: give them their types.
+		for _, arg := range arguments {
+			v.visit(arg)
+		}
 		return interfaceType
 	}
 
